@@ -56,6 +56,11 @@ fn main() {
             .build()
             .unwrap()
     };
+    if let Some(path) = arg(&args, "--dump-corpus") {
+        let n = rt.block_on(svh::props::c10::dump_corpus(ctx.seed, &path));
+        println!("corpus inputs: {}", n);
+        return;
+    }
     let known = match rt.block_on(async { svh::panics::catch_async(dispatch(&prop, &ctx, &mut rep)).await }) {
         Ok(k) => k,
         Err(p) => {
